@@ -82,6 +82,11 @@ Theorem C15_last_level_record_is_level : forall sc s d,
   end.
 Proof. exact last_level_record_is_level. Qed.
 
+Theorem C15_sink_value_is_sum_of_records : forall sc s d,
+  f_out (fq_world sc) = [] -> reach_in sc s -> d_kind (getd (fst s) d) = KSink ->
+  d_value_received (getd (fst s) d) = d_value_received (getd (fq_world sc) d) + sumrec L_RECEIVED d (datalog (snd s)).
+Proof. exact sink_value_is_sum_of_records. Qed.
+
 (** the premise holds for every scenario the decoder builds *)
 Theorem C15_decoded_scenarios_start_clean : forall l, f_out (fq_world (decode_fl_scn l)) = [].
 Proof. exact decoded_no_pending_output. Qed.
@@ -92,6 +97,7 @@ Proof. exact rlab_reserve. Qed.
 
 Print Assumptions C15_supplied_counter_is_record_count.
 Print Assumptions C15_last_level_record_is_level.
+Print Assumptions C15_sink_value_is_sum_of_records.
 Print Assumptions C15_decoded_scenarios_start_clean.
 Print Assumptions C15_manager_labels.
 
@@ -111,6 +117,25 @@ Example C15_log_nonvacuous :
 Proof.
   assert (R0 : reach_ok c15_sc c15_s0).
   { apply ro_init; [vm_compute; reflexivity|]. unfold c15_s0. vm_compute. reflexivity. }
+  split; [reflexivity|]. split; [apply reach_ok_in, fx_steps_reach; [exact R0|vm_compute; reflexivity]|].
+  repeat split; vm_compute; reflexivity.
+Qed.
+
+(** the same line with parts worth 5: after 40 executed events the sink has received value and its records add up to it *)
+Definition c15v_world : fw :=
+  mkFw [(1, (blank_dev KSource) <| d_down := [2] |> <| d_cycle := 8 |> <| d_gen_value := 5 |>);
+        (2, (blank_dev KBuffer) <| d_up := [1] |> <| d_down := [3] |> <| d_capacity := Some 4 |>);
+        (3, (blank_dev KProcessor) <| d_up := [2] |> <| d_down := [4] |> <| d_cycle := 24 |>);
+        (4, (blank_dev KSink) <| d_up := [3] |>)] [] init_rs [] 10 [] [] 0.
+Definition c15v_sc : fl_scn := mkFlScn 1 1 c15v_world [] [].
+Definition c15v_s0 := fst (do_fxop c15v_sc (c15v_world, init_env) FXInit).
+Example C15_sink_value_nonvacuous :
+  f_out (fq_world c15v_sc) = [] /\ reach_in c15v_sc (fx_steps c15v_sc 40 c15v_s0) /\
+  d_kind (getd (fst (fx_steps c15v_sc 40 c15v_s0)) 4) = KSink /\
+  d_value_received (getd (fst (fx_steps c15v_sc 40 c15v_s0)) 4) = 25 /\ sumrec L_RECEIVED 4 (datalog (snd (fx_steps c15v_sc 40 c15v_s0))) = 25.
+Proof.
+  assert (R0 : reach_ok c15v_sc c15v_s0).
+  { apply ro_init; [vm_compute; reflexivity|]. unfold c15v_s0. vm_compute. reflexivity. }
   split; [reflexivity|]. split; [apply reach_ok_in, fx_steps_reach; [exact R0|vm_compute; reflexivity]|].
   repeat split; vm_compute; reflexivity.
 Qed.
